@@ -104,6 +104,10 @@ impl Cx {
                 return Ok((format!("match {} with O => None | S _ => Some {} end", t, paren(&t)), Ty::opt(Ty::NzNat)));
             }
             "NodeStamp::default" => return Ok(("0%Z".into(), Ty::Stamp)),
+            "mem::size_of" => {
+                self.layout_params = true;
+                return Ok(("v_size".into(), Ty::Addr));
+            }
             "DoubleEndedIter::new" | "Iter::new" => {
                 // fn new(arena, x: impl Into<Option<NodeId>>, ..): each argument is a NodeId or an Option<NodeId>
                 let args = self.args_no_arena(&c.args, pres)?;
@@ -207,6 +211,11 @@ impl Cx {
             let a = self.fresh_bind("a_", Code::Raw("get_arena".into()), pres);
             match name.as_str() {
                 "len" => return Ok((format!("List.length (nodes {})", a), Ty::Nat)),
+                // the buffer of the Vec: `len` slots of `v_size` bytes from address `v_base` (memory layout parameters)
+                "as_ptr_range" => {
+                    self.layout_params = true;
+                    return Ok((format!("(v_base, (v_base + Z.of_nat (List.length (nodes {})) * v_size)%Z)", a), Ty::AddrRange));
+                }
                 "push" => {
                     let (v, _) = self.expr(&m.args[0], pres)?;
                     pres.push(Pre::Seq(Code::Raw(format!("put_arena (set_nodes ((nodes {} ++ [{}])%list) {})", a, v, a))));
@@ -319,6 +328,13 @@ impl Cx {
                 Ok((format!("S {}", paren(&rt)), Ty::Nat))
             }
             (Ty::NzNat, "get") => Ok((rt, Ty::Nat)),
+            (Ty::AddrRange, "contains") => {
+                let (p, pty) = self.expr(&m.args[0], pres)?;
+                if pty != Ty::Addr {
+                    return Err("Range::contains of a non-address".into());
+                }
+                Ok((format!("(Z.leb (fst {}) {}) && (Z.ltb {} (snd {}))", paren(&rt), paren(&p), paren(&p), paren(&rt)), Ty::Bool))
+            }
             _ => Err(format!("unsupported method `.{}` on {:?} in `{}`", name, rty, ts(m))),
         }
     }
